@@ -30,7 +30,9 @@ RULE = ('Hypothesis-generated configurations (layer tree of 2-6 leaves with name
         'have own sources; per leaf 1-2 sources: direct WMS (transparent or opaque-declared) or png / jpeg cache on '
         'GLOBAL_MERCATOR / GLOBAL_WEBMERCATOR / GLOBAL_GEODETIC / a custom UTM32 grid, stored or disable_storage, '
         'meta 1x1 / 2x2; optional tile_sources) x 6 requests each: WMS 1.1.1 / 1.3.0 GetMap (EPSG:3857 / 4326 / 25832, '
-        '40-256 px, non-square pixels, png / jpeg, transparent or bgcolor, 1-3 layer names incl. groups), WMS '
+        '40-256 px, non-square pixels, png / jpeg, transparent or bgcolor, 1-3 layer names incl. groups; a third of the '
+        'configurations has services.wms.bbox_srs with plain codes and explicit {srs, bbox} extents, and two thirds of their '
+        'GetMap requests in such an SRS reach 8-93 % beyond the extent over an edge or corner), WMS '
         'GetFeatureInfo, TMS / tiles / KML / WMTS-REST / WMTS-KVP tiles and WMTS GetFeatureInfo, each with its own '
         'authorize callback result: full / none / unauthenticated / no callback / partial with per-name '
         'map / featureinfo / tile = True / False / missing, names missing, per-layer and / or global limited_to sent '
@@ -54,6 +56,10 @@ ASSUMPTIONS = [
     'requested by name, otherwise nothing of the layers may result; MapProxy answers pure group requests with a blank 200, '
     'which doc/auth.rst describes as 403 - counted in notes, not a violation of the statement); on tile services it must be 403; '
     'unauthenticated must be 401 everywhere',
+    'explicit SRS extent (services.wms.bbox_srs entry with bbox): outside the extent and within 3 px of its edge background is '
+    'accepted besides the modelled content; MapProxy pastes the reduced picture at truncated whole-pixel offsets, so for '
+    'requests that reach beyond the extent all pixel bands are 1.05 px wider (2.06 px outside / 3.05 px inside); a request '
+    'that does not intersect the extent is answered blank without consulting the callback and is not judged',
     'blank = alpha 0, or the requested bgcolor on opaque output (both accepted where the statement says "transparent (or '
     'background colour)")',
     'layers requested below a layer that MapProxy may treat as opaque (direct WMS source with transparent: false) may be '
@@ -71,6 +77,7 @@ TOL_JPEG = 48
 BAND = 1.01         # "more than one pixel outside"
 BAND_IN = 2.0       # "well inside": the -0.1 px mask buffer is mitred (up to 0.5 px at sharp hole spikes) + touched pixels
 BAND_JPEG = 3.0
+EXTENT_SLACK = 1.05  # extra displacement of a picture reduced to the SRS extent (pasted at integer offsets)
 DEV_LIMIT = 0.2
 
 F_GLOBAL_IGNORED = 'C10/tile/global-limit-ignored-when-layer-limited'
@@ -122,6 +129,22 @@ class Model(object):
             self.colour[u] = (off + 7 * i) % 27
         self.bg_idx = (off + 7 * len(uids)) % 27
         self._walk(conf['tree'])
+        # services.wms.bbox_srs: plain codes and {srs, bbox} entries (explicit SRS extent: GetMap is reduced to it)
+        self.extents = {}
+        self.bbox_srs = None
+        if conf.get('bbox_srs'):
+            self.bbox_srs = []
+            for e in conf['bbox_srs']:
+                if e.get('ll') is None:
+                    self.bbox_srs.append(e['srs'])
+                    continue
+                lon0, lat0, lon1, lat1 = e['ll']
+                X, Y = ground.transform(np.array([lon0, lon1, lon0, lon1]), np.array([lat0, lat0, lat1, lat1]),
+                                        'EPSG:4326', e['srs'])
+                nd = 6 if e['srs'] == 'EPSG:4326' else 2
+                bbox = [round(float(X.min()), nd), round(float(Y.min()), nd), round(float(X.max()), nd), round(float(Y.max()), nd)]
+                self.extents[e['srs']] = tuple(bbox)
+                self.bbox_srs.append({'srs': e['srs'], 'bbox': bbox})
 
     def _walk(self, nodes):
         for n in nodes:
@@ -227,6 +250,8 @@ class Model(object):
             'layers': [node_conf(n) for n in self.conf['tree']],
             'sources': sources,
         }
+        if self.bbox_srs:
+            conf['services']['wms']['bbox_srs'] = self.bbox_srs
         if caches:
             conf['caches'] = caches
         if grids:
@@ -656,7 +681,22 @@ def confs(draw):
         tree.append(group(0) if draw(st.booleans()) else leaf())
     if counter['leaf'] < 2:
         tree.append(leaf())
-    return {'tree': tree, 'sources': sources, 'coff': draw(st.integers(0, 26))}
+    conf = {'tree': tree, 'sources': sources, 'coff': draw(st.integers(0, 26))}
+    if draw(st.sampled_from([False, False, True])):
+        entries = []
+        for srs in WMS_SRS:
+            how = draw(st.sampled_from(['extent', 'extent', 'plain', 'absent']))
+            if how == 'plain':
+                entries.append({'srs': srs, 'll': None})
+            elif how == 'extent':
+                entries.append({'srs': srs, 'll': [draw(st.floats(7.3, 8.5)), draw(st.floats(47.5, 49.5)),
+                                                   draw(st.floats(9.5, 10.7)), draw(st.floats(51.5, 53.5))]})
+        if not any(e['ll'] for e in entries):
+            entries.append({'srs': 'EPSG:3857' if not any(e['srs'] == 'EPSG:3857' for e in entries) else 'EPSG:4326',
+                            'll': [7.9, 48.2, 10.1, 52.8]})
+            entries = [e for i, e in enumerate(entries) if e['srs'] not in [f['srs'] for f in entries[i + 1:]]]
+        conf['bbox_srs'] = entries
+    return conf
 
 
 def _perm_value():
@@ -728,6 +768,14 @@ def requests_(draw, model, open_sigs):
     if kind in ('map', 'fi'):
         req['version'] = draw(st.sampled_from(['1.1.1', '1.3.0']))
         req['srs'] = draw(st.sampled_from(WMS_SRS))
+        if kind == 'map' and model.extents:
+            if req['srs'] not in model.extents and draw(st.booleans()):
+                req['srs'] = draw(st.sampled_from(sorted(model.extents)))
+            if req['srs'] in model.extents and draw(st.sampled_from([True, True, False])):
+                # reach beyond the configured extent of this SRS: over which edge(s), by which share of the frame
+                req['ext'] = {'edge': draw(st.sampled_from(['w', 'e', 's', 'n', 'sw', 'ne', 'nw', 'se'])),
+                              'frac': draw(st.sampled_from([0.08, 0.25, 0.5, 0.5, 0.8, 0.93])),
+                              't': draw(st.floats(0.05, 0.95))}
         req['res'] = draw(st.sampled_from([20.0, 50.0, 150.0, 400.0, 37.3])) * draw(st.floats(0.7, 1.4))
         req['asp'] = draw(st.sampled_from([1.0, 1.0, 1.0, 0.6, 1.7]))
         req['w'] = draw(st.integers(40, 256))
@@ -802,13 +850,29 @@ def cases(draw, n_requests=6):
 # ------------------------------------------------------------------------------------------------
 # request construction
 
-def map_frame(req):
+def map_frame(req, extents=None):
     srs = req['srs']
     cx, cy = ground.transform(req['lon'], req['lat'], 'EPSG:4326', srs)
     cx, cy = float(cx), float(cy)
     rx = req['res'] / 111320.0 if srs == 'EPSG:4326' else req['res']
     ry = rx * req['asp']
     w, h = req['w'], req['h']
+    ext = (extents or {}).get(srs)
+    if req.get('ext') and ext:
+        # the frame sticks out of the SRS extent over the chosen edge(s) by `frac` of its width / height; along a
+        # single edge it sits at fraction t of that edge
+        e = req['ext']
+        gw, gh = rx * w, ry * h
+        cx = ext[0] + e['t'] * (ext[2] - ext[0])
+        cy = ext[1] + e['t'] * (ext[3] - ext[1])
+        if 'w' in e['edge']:
+            cx = ext[0] + gw / 2 - e['frac'] * gw
+        if 'e' in e['edge']:
+            cx = ext[2] - gw / 2 + e['frac'] * gw
+        if 's' in e['edge']:
+            cy = ext[1] + gh / 2 - e['frac'] * gh
+        if 'n' in e['edge']:
+            cy = ext[3] - gh / 2 + e['frac'] * gh
     return Frame(srs, (cx - rx * w / 2, cy - ry * h / 2, cx + rx * w / 2, cy + ry * h / 2), (w, h))
 
 
@@ -965,7 +1029,7 @@ class Harness(object):
 
         # frame and address
         if kind in ('map', 'fi'):
-            frame = map_frame(req)
+            frame = map_frame(req, m.extents if kind == 'map' else None)
             service = 'wms.map' if kind == 'map' else 'wms.featureinfo'
             req['_layers_param'] = list(req['layers'])
             if kind == 'fi':
@@ -1041,6 +1105,32 @@ class Harness(object):
             stats.case(key=case, nontrivial=nontrivial, classes=sorted(set(classes)), sample=case)
             return v
 
+        # -- configured SRS extent (services.wms.bbox_srs with an explicit bbox): GetMap renders only the part of the
+        # request inside it and leaves the rest background (doc/services.rst "bbox_srs", test_wms_srs_extent.py)
+        sub_bbox = None
+        extent_px = None
+        if kind == 'map' and frame.srs in m.extents:
+            ext = m.extents[frame.srs]
+            b = frame.bbox
+            if ext[0] <= b[0] and ext[1] <= b[1] and ext[2] >= b[2] and ext[3] >= b[3]:
+                classes.append('srs-extent:contains-request')
+            else:
+                inter = (max(ext[0], b[0]), max(ext[1], b[1]), min(ext[2], b[2]), min(ext[3], b[3]))
+                if inter[0] >= inter[2] or inter[1] >= inter[3]:
+                    # nothing to render, nothing to authorize: whatever the callback would say, nothing of any layer
+                    # may result
+                    classes.append('srs-extent:disjoint')
+                    bad_call = [c for c in calls if c.kind in ('map', 'featureinfo')]
+                    if bad_call:
+                        stats.notes['upstream-request-for-map-outside-srs-extent'] += 1
+                    return done(None)
+                sub_bbox = inter
+                x0, y0 = frame.ground_to_px(inter[0], inter[3])
+                x1, y1 = frame.ground_to_px(inter[2], inter[1])
+                extent_px = (float(x0), float(y0), float(x1), float(y1))
+                share = (x1 - x0) * (y1 - y0) / float(frame.size[0] * frame.size[1])
+                classes.append('srs-extent:request-reaches-beyond/' + ('mostly' if share < 0.5 else 'partly'))
+
         # -- whole-request verdicts --------------------------------------------------------------
         # 'unauthenticated' -> 401 everywhere; 'none' -> 403 for the tile services.  For the WMS operations 'none'
         # is judged like a partial result that permits nothing: the property only demands that nothing of the
@@ -1114,8 +1204,9 @@ class Harness(object):
                 if qe is None:
                     continue
                 code, bbox = qe
+                want_bbox = sub_bbox or frame.bbox
                 ok = same_srs(code, frame.srs) and all(
-                    abs(a - b) <= 1e-6 * max(1.0, abs(frame.bbox[2] - frame.bbox[0])) for a, b in zip(bbox, frame.bbox))
+                    abs(a - b) <= 1e-6 * max(1.0, abs(frame.bbox[2] - frame.bbox[0])) for a, b in zip(bbox, want_bbox))
                 if not ok:
                     return False
             return True
@@ -1177,7 +1268,7 @@ class Harness(object):
             if len(allowed_items) == 1:
                 classes.append('single-layer')
             v, nt = self.judge_pixels(arr, frame, allowed_items, denied_uids, is_jpeg, 'wms.map', case, classes,
-                                      deviating)
+                                      deviating, extent_px=extent_px)
             return done(v, nt)
 
         # =========================================================================================
@@ -1381,13 +1472,19 @@ class Harness(object):
     # -- pixels ------------------------------------------------------------------------------------
 
     def judge_pixels(self, arr, frame, items, denied_uids, is_jpeg, svc, case, classes, deviating, both=False,
-                     layer_region=None, tol=None):
-        """items: permitted draw items bottom -> top.  Returns (violation or None, nontrivial)."""
+                     layer_region=None, tol=None, extent_px=None):
+        """items: permitted draw items bottom -> top.  Returns (violation or None, nontrivial).
+        extent_px: rectangle (pixel coordinates) of the configured SRS extent when the request reaches beyond it."""
         m = self.model
         w, h = frame.size
         X, Y = np.meshgrid(np.arange(w) + 0.5, np.arange(h) + 0.5)
         band = BAND_JPEG if is_jpeg else BAND
         band_in = BAND_JPEG if is_jpeg else BAND_IN
+        if extent_px is not None:
+            # the reduced picture is pasted at whole-pixel offsets (bbox_position_in_image truncates): up to one more
+            # pixel of displacement that is not an authorization matter
+            band += EXTENT_SLACK
+            band_in += EXTENT_SLACK
         tol = TOL_JPEG if is_jpeg else (tol or TOL_PNG)
         all_regions = []
         for it in items:
@@ -1429,6 +1526,14 @@ class Harness(object):
             for r in all_regions:
                 i_, o_ = r.masks(X, Y, band, band_in)
                 expected[~(i_ | o_)] = -3
+        if extent_px is not None:
+            ex0, ey0, ex1, ey1 = extent_px
+            d = 2.0 + EXTENT_SLACK
+            well_in_extent = (X > ex0 + d) & (X < ex1 - d) & (Y > ey0 + d) & (Y < ey1 - d)
+            maybe_blank |= ~well_in_extent           # background outside the extent (and in the rim around its edge)
+            if is_jpeg:
+                out_of_extent = (X < ex0 - band) | (X > ex1 + band) | (Y < ey0 - band) | (Y > ey1 + band)
+                expected[~(well_in_extent | out_of_extent)] = -3
         judged = expected != -3
         blank_obs = (obs == BLANK) | (obs == m.bg_idx)
         okm = (obs == expected) | ((expected == BLANK) & blank_obs) | (maybe_blank & blank_obs)
